@@ -16,7 +16,7 @@ func init() {
 		Level: "fault_enumeration",
 		Rule: "for each base scenario b (PCG(seed,C09,b): config x form x method x map-free messages, fault-aware backend that refuses invalid requests like a real server) " +
 			"every fault of these kinds is injected, one per execution: request cut at EVERY byte offset (transport error; clean end-of-stream for offsets strictly inside a frame); " +
-			"envelope length over/under-stated per frame; Content-Length over/under-stated on un-enveloped bodies; envelope flag byte set to every value 0..255 outside the protocol's valid set, " +
+			"envelope length over/under-stated per frame (responses: by 1..8 and by 1000); gRPC backend body cut inside a frame followed by successful trailers; Content-Length over/under-stated on un-enveloped bodies; envelope flag byte set to every value 0..255 outside the protocol's valid set, " +
 			"per frame, both directions; backend response cut at EVERY byte offset (enveloped backends; un-enveloped ones when they declared Content-Length); every single-bit flip of a gzip payload (both directions); " +
 			"undecodable payloads. oracle: client outcome is not OK; complete messages decoded by the backend are a prefix of what the client finished sending; the response is a well-formed error for " +
 			"gRPC/Connect-unary/REST clients (in-band-terminated forms may be cut short on the re-framing path; counted); ServeHTTP returns. Benign gzip flips (identical inflate result) are excluded by reference. " +
